@@ -33,6 +33,7 @@ class Ctx:
             self.verdicts = P.stage_verdicts(self.ws, self.ds)
             self.xl = P.stage_xlate(self.ws, self.verdicts['dumped'])
             self.ob = P.stage_obligations(self.ws, self.ds, self.verdicts, self.xl)
+            self.dec = P.stage_decisions(self.ws, self.ds)['decisions']
             self.beh = P.stage_behaviour(self.ws, self.ds, self.verdicts, self.xl)
         finally:
             self.ws.unlock()
@@ -103,9 +104,44 @@ STRUCT_LABELS = {
 }
 
 
+def verdict_obligations(ctx, kind):
+    """one obligation per declaration of `kind`: rustc's verdict = the rule (valid_*) = the model of the macro (accept_*)"""
+    out = []
+    acc = set(ctx.verdicts['accepted'])
+    casc = set(ctx.verdicts['cascade'])
+    for d in ctx.ds:
+        if d['kind'] != kind or d['name'] in casc:
+            continue
+        real = d['name'] in acc
+        if d['name'] in ctx.dec:
+            valid, model = ctx.dec[d['name']]
+            how = 'valid=%s model=%s' % (valid, model)
+        else:
+            valid = model = d['expect'] == 'accept'
+            how = 'malformed-stream expectation=%s' % d['expect']
+        ok = real == valid == model
+        out.append({'decl': d['name'], 'label': 'verdict', 'ok': ok, 'real': real, 'valid': valid, 'model': model,
+                    'shape': json.dumps([d['family'], d.get('tags'), d.get('base'), d.get('bits'), real]),
+                    'detail': 'rustc %s; %s' % ('accepts' if real else 'rejects', how)})
+    return out
+
+
 def collect(ctx, pid):
     """-> list of per-program obligations {decl, label, ok} that serve property pid"""
     out = []
+    if pid == 'C09':
+        return verdict_obligations(ctx, 'bitfield')
+    if pid == 'C10':
+        out += verdict_obligations(ctx, 'enum')
+    if pid in ('C07', 'C10'):
+        for name, obs in ctx.ob['obligations'].items():
+            d = ctx.by_name[name]
+            if d['kind'] == 'enum':
+                for label, ok in obs:
+                    if pid == 'C07' or label == 'enum:new_with_raw_value':
+                        out.append({'decl': name, 'label': label, 'ok': ok,
+                                    'shape': json.dumps([label, d['bits'], d.get('exh'), len(d['variants'])])})
+        return out
     sel = SELECT.get(pid)
     sl = STRUCT_LABELS.get(pid)
     for name, obs in ctx.ob['obligations'].items():
@@ -200,7 +236,15 @@ def check_property(pid, tier, seed):
     reported = set()
     for o in failing[:4]:
         d = ctx.by_name[o['decl']]
-        w = directed_search(ctx, d, o['label'])
+        if o['label'] == 'verdict':
+            payload = {'property': pid, 'kind': 'verdict', 'declaration': '\n'.join(D.rust_decl(d)), 'decl_json': d,
+                       'deps': [ctx.by_name[n] for n in sorted(P.deps_of(d))], 'detail': o['detail'],
+                       'rustc': ctx.verdicts['rejected'].get(o['decl']),
+                       'note': 'the declaration is the witness: ' + ('it is rule-invalid but compiles' if o['real'] and not o['valid']
+                               else 'it is rule-valid but is rejected' if o['valid'] and not o['real'] else 'model and rule disagree')}
+            violations.append((write_replay(pid, payload), '' if o['real'] != o['valid'] else ' no-failing-input-found'))
+            continue
+        w = directed_search(ctx, d, o['label']) if d['kind'] == 'bitfield' else None
         payload = {'property': pid, 'kind': 'obligation', 'obligation': '%s %s' % (o['decl'], o['label']),
                    'declaration': '\n'.join(D.rust_decl(d)), 'decl_json': d,
                    'deps': [ctx.by_name[n] for n in sorted(P.deps_of(d))],
@@ -213,6 +257,13 @@ def check_property(pid, tier, seed):
             violations.append((write_replay(pid, payload), ' no-failing-input-found'))
     # 3. behavioural correspondence (compiled code, both profiles, vs eval of the translation vs Spec.v)
     bm = [m for m in ctx.beh['mismatches'] if beh_selected(ctx, pid, m)]
+    if pid in ('C07', 'C10'):
+        for m in ctx.beh['enum']['mismatches'][:4]:
+            if pid == 'C10' and not ('P' in (m.get('rust_dev'), m.get('rust_release'))):
+                continue
+            d = ctx.by_name[m['decl']]
+            violations.append((write_replay(pid, {'property': pid, 'kind': 'enum-behaviour', 'declaration': '\n'.join(D.rust_decl(d)),
+                                                  'decl_json': d, 'witness': m}), ''))
     for m in bm[:4]:
         if (m['decl'], m.get('field'), m.get('op')) in reported:
             continue
@@ -250,6 +301,7 @@ def check_property(pid, tier, seed):
             'corpus': {'declarations': len(ctx.ds), 'accepted': len(ctx.verdicts['accepted']),
                        'rejected': len(ctx.verdicts['rejected'])},
             'behavioural_tie': {k: ctx.beh[k] for k in ('programs', 'scenarios', 'ops', 'stats', 'distinct', 'n_mismatches')},
+            'enum_behavioural_tie': {k: ctx.beh['enum'].get(k) for k in ('enums', 'conversions', 'stats', 'n_mismatches')},
             'behavioural_tie_note': 'whole-corpus differential run (dev and release binaries vs eval checked/unchecked vs Spec.v); '
                                     'validates Expr.v and the translator; not a proof',
             'repo_tree': ctx.ws.repo_hash[:16],
